@@ -115,6 +115,8 @@ pub fn plan(history: &[Tok], cfg: &SysConfig, last_snap: SnapMode, observe_each:
             Tok::Restart | Tok::Kill => {
                 if *tok == Tok::Restart {
                     push(&mut ops, &mut ab, &mut inf, Op::Shutdown, &acked, None);
+                } else {
+                    push(&mut ops, &mut ab, &mut inf, Op::KillPoint, &acked, None);
                 }
                 lives.push(LifeSpec { ops: std::mem::take(&mut ops), snap: SnapMode::Off, fsmon: true });
                 acked_before.push(std::mem::take(&mut ab));
@@ -662,7 +664,7 @@ pub fn run_history(
             let inflight = p.inflight[li].get(s.op).cloned().flatten();
             let key = format!(
                 "{:?}|{}|{:?}|{:?}",
-                (cfg.shards, cfg.fill_factor, cfg.event_per_zone, cfg.segments_per_merge, cfg.wal_buffered),
+                (cfg.shards, cfg.fill_factor, cfg.event_per_zone, cfg.segments_per_merge, cfg.wal_buffered, cfg.wal_flush_each_write),
                 s.digest,
                 acked.iter().map(|e| e.k).collect::<Vec<_>>(),
                 inflight.as_ref().map(|e| e.k)
@@ -690,7 +692,7 @@ pub fn run_history(
             {
                 let mut st = stats.lock().unwrap();
                 st.recoveries += 1;
-                if cfg.wal_buffered {
+                if cfg.wal_buffered && !cfg.wal_flush_each_write {
                     st.buffered_recoveries += 1;
                 }
             }
@@ -725,7 +727,7 @@ pub fn run_history(
                             let partial = partially_committed_round(last, s.seq);
                             // buffered WAL: everything applied in this lifetime may still be in the writer's buffer
                             let mut may_be_lost: BTreeMap<i64, usize> = BTreeMap::new();
-                            if cfg.wal_buffered {
+                            if cfg.wal_buffered && !cfg.wal_flush_each_write {
                                 let routes = route_of(cfg);
                                 let before: BTreeSet<i64> = p.acked_before[li][0].iter().map(|e| e.k).collect();
                                 for e in acked.iter().filter(|e| !before.contains(&e.k)) {
@@ -735,7 +737,7 @@ pub fn run_history(
                             match classify(&o, acked, inflight.as_ref(), &cands, true, &st.blast, in_window, partial, &may_be_lost) {
                                 Ok(t) => {
                                     known = t.into_iter().collect();
-                                    if cfg.wal_buffered && known.is_empty() {
+                                    if cfg.wal_buffered && !cfg.wal_flush_each_write && known.is_empty() {
                                         // every deviation from the strong clause is a loss the weak clause allows
                                         d.clear();
                                         stats.lock().unwrap().buffered_suffix_losses += 1;
@@ -895,8 +897,10 @@ pub fn configs(tier: &str) -> Vec<SysConfig> {
     // buffered WAL (weak crash clause): a small writer buffer, so that crash points fall
     // between buffer flushes
     let buffered = |size: usize, shards: usize| SysConfig { wal_buffered: true, wal_flush_each_write: false, wal_buffer_size: size, shards, ..base.clone() };
+    // a buffered writer that is flushed after each write: the strong clause applies, kills included
+    let buffered_flushed = SysConfig { wal_buffered: true, wal_flush_each_write: true, wal_buffer_size: 8192, ..base.clone() };
     if tier == "quick" {
-        return vec![base.clone(), buffered(400, 1)];
+        return vec![base.clone(), buffered(400, 1), buffered_flushed];
     }
     let mut v = Vec::new();
     for (ff, epz) in [(2, 2), (1, 2), (2, 1)] {
@@ -908,6 +912,7 @@ pub fn configs(tier: &str) -> Vec<SysConfig> {
     }
     v.push(buffered(400, 1));
     v.push(buffered(1000, 2));
+    v.push(buffered_flushed);
     v
 }
 
@@ -1006,6 +1011,8 @@ pub fn deep_histories() -> Vec<Vec<Tok>> {
         // segments that share event types only partly (a round retires an input for one type only)
         vec![Fill, Fill, Sb, Sa, Flush, Compact, Restart, Sa],
         vec![Sb, Flush, Fill, Fill, Compact, Kill, Sb],
+        // level 1 emptied into level 2, then filled again: a level-1 label is handed out twice in one process
+        vec![Fill, Fill, Compact, Compact, Fill, Fill, Compact, Sa],
     ]
 }
 
@@ -1033,7 +1040,7 @@ pub fn check(tier: &str) -> i32 {
         }
         for h in hs {
             // with a buffered WAL a kill loses an unpredictable suffix; histories continue only after clean restarts
-            if cfg.wal_buffered && h.iter().any(|t| *t == Kill) {
+            if cfg.wal_buffered && !cfg.wal_flush_each_write && h.iter().any(|t| *t == Kill) {
                 continue;
             }
             work.push((cfg.clone(), h));
